@@ -233,6 +233,10 @@ fn read_attrs<J: Jar>(j: &J) -> Result<Vec<BasicFileAttributes>, String> {
 
 /// builds both jars, runs dukebox::merge::merge, projects everything
 pub fn run_merge(client: &AJar, server: &AJar, route: Route, reopen: bool, tmp: &Path) -> Result<Merged, String> {
+	run_merge_keep(client, server, route, reopen, false, tmp).map(|x| x.0)
+}
+/// the same, and the merged jar itself (for a second merge)
+pub fn run_merge_keep(client: &AJar, server: &AJar, route: Route, reopen: bool, keep: bool, tmp: &Path) -> Result<(Merged, Option<ParsedJar<ClassRepr, Vec<u8>>>), String> {
 	let mut it = Interner::default();
 	let e2s = |e: anyhow::Error| format!("{e:#}");
 	let cj = build(client, route.c, tmp, "client").map_err(e2s)?;
@@ -243,19 +247,85 @@ pub fn run_merge(client: &AJar, server: &AJar, route: Route, reopen: bool, tmp: 
 	let ps = prepare(server, route.s, &sa, &mut it)?;
 	// the merge has no recursion over its input, but its loops do not obviously end (merge_preserve_order's
 	// outer loop relies on the no_change break): leave the input behind in case the process has to be killed
-	crumb(&format!("property C13\n{REPLAY_NOTE}\ndukebox::merge::merge did not return (harness killed) on\nroute: {route:?}\nclient jar:\n{}\nserver jar:\n{}\n",
-		client.iter().map(|e| format!("  {e:?}")).collect::<Vec<_>>().join("\n"), server.iter().map(|e| format!("  {e:?}")).collect::<Vec<_>>().join("\n")));
+	let crumb_text = format!("property C13\n{REPLAY_NOTE}\ndukebox::merge::merge did not return (harness killed) on\n{}", describe(client, server, route));
+	Ok(run_built(cj, sj, pc, ps, &crumb_text, reopen, keep, tmp, &mut it))
+}
+
+/// the inputs of one merge, for replay texts
+pub fn describe(client: &AJar, server: &AJar, route: Route) -> String {
+	format!("route: {route:?}\nclient jar:\n{}\nserver jar:\n{}\n", client.iter().map(|e| format!("  {e:?}")).collect::<Vec<_>>().join("\n"), server.iter().map(|e| format!("  {e:?}")).collect::<Vec<_>>().join("\n"))
+}
+
+/// The model's view of a jar that already exists (the result of an earlier merge, as a ParsedJar or written
+/// and re-opened as a zip archive): what the implementation itself finds in it, entry by entry.
+fn prepare_built(bj: &BuiltJar, it: &mut Interner) -> Result<Vec<PEntry>, String> {
+	enum Raw<'a> { Dir, Other(Vec<u8>), Bytes(Vec<u8>), Tree(&'a duke::tree::class::ClassFile) }
+	let e2s = |e: anyhow::Error| format!("{e:#}");
+	let attrs = with_jar!(bj, j => read_attrs(j))?;
+	let mut raws: Vec<(String, Raw)> = vec![];
+	match bj {
+		BuiltJar::Parsed(p) => for (n, e) in &p.entries {
+			raws.push((n.clone(), match &e.content {
+				JarEntryEnum::Dir => Raw::Dir, JarEntryEnum::Other(d) => Raw::Other(d.clone()),
+				JarEntryEnum::Class(ClassRepr::Vec { data }) => Raw::Bytes(data.clone()), JarEntryEnum::Class(ClassRepr::Parsed { class }) => Raw::Tree(class) }));
+		},
+		_ => {
+			fn walk<J: Jar>(j: &J) -> Result<Vec<(String, Option<Result<Vec<u8>, Vec<u8>>>)>, String> {
+				let e2s = |e: anyhow::Error| format!("{e:#}");
+				let mut o = j.open().map_err(e2s)?;
+				let keys: Vec<_> = o.entry_keys().collect();
+				let mut v = vec![];
+				for k in keys {
+					let e = o.by_entry_key(k).map_err(e2s)?;
+					let n = JarEntry::name(&e).to_owned();
+					v.push((n, match e.to_jar_entry_enum().map_err(e2s)? { JarEntryEnum::Dir => None, JarEntryEnum::Class(c) => Some(Ok(c.write().map_err(e2s)?.as_ref().to_vec())), JarEntryEnum::Other(d) => Some(Err(d.get_data().to_vec())) }));
+				}
+				Ok(v)
+			}
+			let v = match bj { BuiltJar::Unnamed(j) => walk(j), BuiltJar::Named(j) => walk(j), BuiltJar::File(j) => walk(j), BuiltJar::Parsed(_) => unreachable!() }?;
+			for (n, c) in v { raws.push((n, match c { None => Raw::Dir, Some(Ok(b)) => Raw::Bytes(b), Some(Err(d)) => Raw::Other(d) })); }
+		}
+	}
+	let _ = e2s;
+	let mut out = vec![];
+	for ((name, raw), a) in raws.into_iter().zip(&attrs) {
+		let content = match raw {
+			Raw::Dir => PContent::Dir,
+			Raw::Other(d) => PContent::Other(d),
+			Raw::Bytes(bytes) => {
+				let b = bytes.clone();
+				let tree = match guarded(move || duke::read_class(&mut Cursor::new(b)).ok()) { Ok(x) => x, Err(p) => return Err(format!("reader panicked: {p}")) };
+				PContent::Class { parsed_repr: false, raw: it.id(&bytes), parsed: tree.as_ref().map(|k| project(k, it)), facts: tree.as_ref().and_then(facts_of_tree), bytes }
+			}
+			Raw::Tree(k) => {
+				let bytes = match guarded(AssertUnwindSafe(|| { let mut b = Vec::new(); duke::write_class(&mut b, k).map(|()| b).map_err(|e| format!("{e:#}")) })) { Ok(Ok(b)) => b, Ok(Err(e)) => return Err(format!("writer failed: {e}")), Err(p) => return Err(format!("writer panicked: {p}")) };
+				PContent::Class { parsed_repr: true, raw: it.id(&bytes), parsed: Some(project(k, it)), facts: facts_of_tree(k), bytes }
+			}
+		};
+		out.push(PEntry { name, attr: it.text(format!("{a:?}")), content });
+	}
+	Ok(out)
+}
+
+/// runs dukebox::merge::merge on two jars that are built already, projects everything
+#[allow(clippy::too_many_arguments)]
+fn run_built(cj: BuiltJar, sj: BuiltJar, pc: Vec<PEntry>, ps: Vec<PEntry>, crumb_text: &str, reopen: bool, keep: bool, tmp: &Path, it: &mut Interner) -> (Merged, Option<ParsedJar<ClassRepr, Vec<u8>>>) {
+	crumb(crumb_text);
 	let res = with_jar!(cj, c => with_jar!(sj, s => guarded(AssertUnwindSafe(|| dukebox::merge::merge(c, s)))));
 	let mut reopened = None;
 	let mut lookup_bad = vec![];
 	let mut written_as = "";
+	let mut kept = None;
 	let outcome = match res {
 		Err(_) => Outcome::Panic,
 		Ok(Err(_)) => Outcome::Fail,
 		Ok(Ok(j)) => {
-			let o = project_out(&j, &mut it);
+			let o = project_out(&j, it);
 			let present: Vec<String> = o.iter().map(|e| e.name.clone()).collect();
-			let absent: Vec<String> = client.iter().chain(server.iter()).map(|e| e.name.clone()).filter(|n| !present.contains(n)).chain(["no/such/entry".to_owned(), String::new()]).collect();
+			// names that are NOT in the jar: the dropped ones, and near misses of the kept ones (a look-up by name is exact: no leading
+			// `/` or `./` stripped, no trailing `/` added or removed, no other letter case)
+			let near: Vec<String> = present.iter().take(6).flat_map(|n| vec![format!("/{n}"), format!("./{n}"), format!("{n}/"), n.trim_end_matches('/').to_owned(), n.to_uppercase(), n.to_lowercase()]).collect();
+			let absent: Vec<String> = pc.iter().chain(ps.iter()).map(|e| e.name.clone()).chain(near).chain(["no/such/entry".to_owned(), String::new()]).filter(|n| !present.contains(n)).collect();
 			if let Ok(mut oj) = j.open() { lookups(&mut oj, "merged jar", &present, &absent, &mut lookup_bad); }
 			if reopen {
 				// ParsedJar::write + the zip reader: what is on disk after the merge — through to_mem or put_to_file
@@ -287,17 +357,31 @@ pub fn run_merge(client: &AJar, server: &AJar, route: Route, reopen: bool, tmp: 
 						if let Ok(mut z) = fj.open() { let (v, b) = walk(&mut z, &present, &absent); reopened = Some(v); lookup_bad.extend(b); }
 					}
 					let _ = std::fs::remove_file(&path);
+				} else if keep {
+					// the caller wants the jar back (to_mem would consume it): the same bytes through put_to_file, read into memory
+					written_as = "put_to_file, read into an UnnamedMemJar";
+					let path = tmp.join("merged-mem.jar");
+					let _ = std::fs::create_dir_all(tmp);
+					if let Ok(Ok(_)) = guarded(AssertUnwindSafe(|| j.put_to_file(&path).map(|_| ()))) {
+						if let Ok(data) = std::fs::read(&path) {
+							let mem = UnnamedMemJar { data };
+							if let Ok(mut z) = mem.open() { let (v, b) = walk(&mut z, &present, &absent); reopened = Some(v); lookup_bad.extend(b); }
+						}
+					}
+					let _ = std::fs::remove_file(&path);
 				} else {
 					written_as = "to_mem";
 					if let Ok(Ok(mem)) = guarded(AssertUnwindSafe(|| j.to_mem())) {
 						if let Ok(mut z) = mem.open() { let (v, b) = walk(&mut z, &present, &absent); reopened = Some(v); lookup_bad.extend(b); }
 					}
+					return (Merged { client: pc, server: ps, outcome: Outcome::Ok(o), reopened, lookups: lookup_bad, written_as }, None);
 				}
 			}
+			if keep { kept = Some(j); }
 			Outcome::Ok(o)
 		}
 	};
-	Ok(Merged { client: pc, server: ps, outcome, reopened, lookups: lookup_bad, written_as })
+	(Merged { client: pc, server: ps, outcome, reopened, lookups: lookup_bad, written_as }, kept)
 }
 static WRITES: std::sync::atomic::AtomicUsize = std::sync::atomic::AtomicUsize::new(0);
 /// zip entries written with an extended timestamp: low half = read back with an mtime, high half = without
@@ -334,7 +418,9 @@ fn g_case(m: &Merged) -> String {
 }
 
 // ---------------------------------------------------------------- the property oracle (implementation alone)
-pub fn is_signature(n: &str) -> bool { n.starts_with("META-INF/") && (n.ends_with(".SF") || n.ends_with(".RSA")) }
+/// "signature files" as the property reads them: what the JAR specification calls signature-related files below META-INF/ —
+/// the signature file *.SF and its signature block file *.RSA, *.DSA or *.EC
+pub fn is_signature(n: &str) -> bool { n.starts_with("META-INF/") && [".SF", ".RSA", ".DSA", ".EC"].iter().any(|x| n.ends_with(x)) }
 pub fn is_server_library(n: &str) -> bool { n.ends_with(".class") && n.contains('/') && !n.starts_with("net/minecraft/") }
 
 fn is_subseq<T: PartialEq>(a: &[T], b: &[T]) -> bool { let mut i = 0; for y in b { if i < a.len() && a[i] == *y { i += 1; } } i == a.len() }
@@ -449,7 +535,7 @@ fn facts_differ(f: &fbh::classfile::facts::ClassFacts, p: &PClass) -> Option<&'s
 	None
 }
 
-fn oracle(r: &mut Report, client: &AJar, server: &AJar, route: Route, m: &Merged) -> bool {
+fn oracle(r: &mut Report, inputs: &str, route: &str, m: &Merged) -> bool {
 	let Outcome::Ok(out) = &m.outcome else { return true };
 	let mut bad: Vec<String> = vec![];
 	let cn: Vec<&str> = m.client.iter().map(|e| e.name.as_str()).collect();
@@ -480,7 +566,11 @@ fn oracle(r: &mut Report, client: &AJar, server: &AJar, route: Route, m: &Merged
 			}
 			(Some(x), Some(y), o) => match (&x.content, &y.content, o) {
 				(PContent::Dir, PContent::Dir, OContent::Dir) => {}
-				(PContent::Other(d), PContent::Other(d2), OContent::Other(o)) => if d == d2 && o != d { bad.push(format!("{n}: resource equal on both sides changed")); },
+				(PContent::Other(d), PContent::Other(d2), OContent::Other(o)) => {
+					if d == d2 && o != d { bad.push(format!("{n}: resource equal on both sides changed")); }
+					// "every entry of either jar exactly once": a resource that differs between the sides is one of the two, nothing else
+					if d != d2 && o != d && o != d2 { bad.push(format!("{n}: resource differing between the sides is neither the client's nor the server's bytes ({})", show_bytes(o))); }
+				}
 				(PContent::Class { bytes: b1, parsed: p1, .. }, PContent::Class { bytes: b2, parsed: p2, .. }, o) => {
 					if b1 == b2 {
 						// identical class => identical bytes: the bytes the merged entry yields (a ClassRepr::Vec's data,
@@ -537,9 +627,8 @@ fn oracle(r: &mut Report, client: &AJar, server: &AJar, route: Route, m: &Merged
 		}
 	}
 	if !bad.is_empty() {
-		let what = format!("dukebox::merge::merge ({route:?} jars): {}", bad[0]);
-		let replay = format!("property C13\n{REPLAY_NOTE}\nroute: {route:?}\nwhat:\n  {}\nclient jar:\n{}\nserver jar:\n{}\nmerged:\n{}\n", bad.join("\n  "),
-			client.iter().map(|e| format!("  {e:?}")).collect::<Vec<_>>().join("\n"), server.iter().map(|e| format!("  {e:?}")).collect::<Vec<_>>().join("\n"),
+		let what = format!("dukebox::merge::merge ({route} jars): {}", bad[0]);
+		let replay = format!("property C13\n{REPLAY_NOTE}\nwhat:\n  {}\n{inputs}merged:\n{}\n", bad.join("\n  "),
 			out.iter().map(show_oentry).collect::<Vec<_>>().join("\n"));
 		r.violation(what, replay);
 		return false;
@@ -632,7 +721,7 @@ pub fn run(ctx: &Ctx) -> anyhow::Result<Report> {
 	r.shard_size = if ctx.thorough { 250 } else { 60 };
 	let mut rng = Rng::new(ctx.seed);
 	let sweep_n = if ctx.thorough { 5 } else { 4 };
-	r.rule = format!("(0) layout: the harness' order of the fields of duke's ClassFile / Field / Method it projects one by one, against the regenerated tables; rule sweep: ~600 entry names (12 prefixes x 4 stems x 12 suffixes around META-INF/, net/minecraft/, net/minecraftx/, net/minecraft.class, .SF/.RSA/.DSA/.sf, .class/.CLASS/.classs/.class.txt, trailing '/' and '\\', default package, multi-byte and non-BMP stems, plus the generators' names) as resources of a jar merged once as the client and once as the server of an empty jar — what the implementation keeps/drops is compared with the rules as the property reads them (oracle) and with the model's regenerated predicates, and the kind a real zip archive's entry of that name has with zip_kind; a zip archive with a damaged local header (observed). (1) exhaustive: every ordered pair of duplicate-free lists over {sweep_n} symbols (all lengths) as the interface lists of two otherwise equal classes, merged through dukebox::merge::merge; the model enumerates the same pairs inside Coq; (1b) the same over ALL lists with duplicates over 3 symbols up to length 3 (1600 pairs). (2) random list pairs up to length 12 (every 400th pair: lists of 254..300 elements, interleaved or scrambled by swaps) that are interleavings of a common order, prefixes, suffixes, permutations, disjoint, equal, or arbitrary (also with duplicates, outside the theorems' hypothesis), through interfaces, fields and methods. (3) generated jar pairs through all four Jar implementations, also mixed (zip archives as UnnamedMemJar, NamedMemJar and FileJar on disk, entries stored or DEFLATE-compressed; ParsedJars): disjoint/identical/overlapping entry sets over classes (net/minecraft, top-level, library packages), resources equal or different, directories, META-INF with manifest, .SF/.RSA/.DSA files; class pairs identical, differing in members/interfaces/annotations/inner classes/permitted subclasses/record components; every second merged jar is also written (ParsedJar::to_mem, every third of these ParsedJar::put_to_file + FileJar), re-opened, every kept name looked up by OpenedJar::by_name in the merge result and in the re-opened archive (every dropped name must not be found), and its merged classes read by the harness' independent class-file parser; every sixth zip entry carries an Info-ZIP extended timestamp (mtime / +atime / +ctime). (4) separate streams outside the hypotheses: differing version/access/deprecated/synthetic flags (assert panics), differing super class or class name (Err), differing inner-class records, duplicate member keys, unreadable class bytes, entry kind mismatch. (5) zip archives with entries of 5 bytes to 200 KiB (sizes around 32 KiB and 64 KiB), incompressible (xorshift noise), compressible, stored or deflated: resources both sides have (equal / different) or one side has, classes carrying the bytes in unknown attributes (identical, one-sided, differing); byte-exact pass-through is checked against the generator's ground truth, in the merge result and in the written jar. (6) real classes in two builds: javac corpus classes (incl. records and sealed classes, invokedynamic, switches, frames) against duke's re-write of them (other bytes, same tree), against builds lacking some members/interfaces, and generated classes (fbh::classfile::gen) assembled in two constant-pool/attribute/encoding layouts, whole or trimmed; the merged class is compared as whole-class facts with both inputs and, written and re-read by the independent strict parser, with the merged tree. A case is non-trivial when at least one list/jar is non-empty and the merge returned a jar; distinct by printed case.");
+	r.rule = format!("(0) layout: the harness' order of the fields of duke's ClassFile / Field / Method it projects one by one, against the regenerated tables; rule sweep: ~750 entry names (12 prefixes x 4 stems x 15 suffixes around META-INF/, net/minecraft/, net/minecraftx/, net/minecraft.class, .SF/.RSA/.DSA/.EC/.sf/.dsa/.DSA.txt, .class/.CLASS/.classs/.class.txt, trailing '/' and '\\', default package, multi-byte and non-BMP stems, plus the generators' names) as resources of a jar merged once as the client and once as the server of an empty jar — what the implementation keeps/drops is compared with the rules as the property reads them (oracle) and with the model's regenerated predicates, and the kind a real zip archive's entry of that name has with zip_kind; a zip archive with a damaged local header (observed). (1) exhaustive: every ordered pair of duplicate-free lists over {sweep_n} symbols (all lengths) as the interface lists of two otherwise equal classes, merged through dukebox::merge::merge; the model enumerates the same pairs inside Coq; (1b) the same over ALL lists with duplicates over 3 symbols up to length 3 (1600 pairs). (2) random list pairs up to length 12 (every 400th pair: lists of 254..300 elements, interleaved or scrambled by swaps) that are interleavings of a common order, prefixes, suffixes, permutations, disjoint, equal, or arbitrary (also with duplicates, outside the theorems' hypothesis), through interfaces, fields and methods. (3) generated jar pairs through all four Jar implementations, also mixed (zip archives as UnnamedMemJar, NamedMemJar and FileJar on disk, entries stored or DEFLATE-compressed; ParsedJars): disjoint/identical/overlapping entry sets over classes (net/minecraft, top-level, library packages), resources equal or different, directories, META-INF with manifest, .SF/.RSA/.DSA files; class pairs identical, differing in members/interfaces/annotations/inner classes/permitted subclasses/record components; every second merged jar is also written (ParsedJar::to_mem, every third of these ParsedJar::put_to_file + FileJar), re-opened, every kept name looked up by OpenedJar::by_name in the merge result and in the re-opened archive (every dropped name must not be found), and its merged classes read by the harness' independent class-file parser; every sixth zip entry carries an Info-ZIP extended timestamp (mtime / +atime / +ctime). (3b) multi-release entries: for n in 9, 17, 21 the classes net/minecraft/V, Top, com/lib/L, net/minecraft/sub/W$1 below META-INF/versions/<n>/ AND outside, a resource, a `.class.txt` resource and the directories, in the four placements client only / server only / both equal / both differing, through zip archives and ParsedJars; one of the classes carries side marks of either side already. (3c) two-step sequences merge(merge(c, s), t) and merge(t, merge(c, s)): the first result is handed on as the ParsedJar it is or written by to_mem and re-opened; t = the server jar again, the client jar again, or a later build of one of them (entries dropped / added, members and interfaces added / removed, resources changed); both steps go through the oracle and the second one is compared with the model (its inputs carry the side marks of the first merge: CLIENT and SERVER marks on classes, members, interface lists). (4) separate streams outside the hypotheses: differing version/access/deprecated/synthetic flags (assert panics), differing super class or class name (Err), differing inner-class records, duplicate member keys, unreadable class bytes, entry kind mismatch. (5) zip archives with entries of 5 bytes to 200 KiB (sizes around 32 KiB and 64 KiB), incompressible (xorshift noise), compressible, stored or deflated: resources both sides have (equal / different) or one side has, classes carrying the bytes in unknown attributes (identical, one-sided, differing); byte-exact pass-through is checked against the generator's ground truth, in the merge result and in the written jar. (6) real classes in two builds: javac corpus classes (incl. records and sealed classes, invokedynamic, switches, frames) against duke's re-write of them (other bytes, same tree), against builds lacking some members/interfaces, and generated classes (fbh::classfile::gen) assembled in two constant-pool/attribute/encoding layouts, whole or trimmed; the merged class is compared as whole-class facts with both inputs and, written and re-read by the independent strict parser, with the merged tree. A case is non-trivial when at least one list/jar is non-empty and the merge returned a jar; distinct by printed case.");
 
 	// 0. the layout of the opaque components, and the string rules of the entry loop name by name
 	r.case("layout", format!("CLayout {} {} {}", glist(REST_CLASS.iter().map(|n| gstr(&cps_str(n)))), glist(REST_FIELD.iter().map(|n| gstr(&cps_str(n)))), glist(REST_METHOD.iter().map(|n| gstr(&cps_str(n))))));
@@ -694,6 +783,28 @@ pub fn run(ctx: &Ctx) -> anyhow::Result<Report> {
 		let stream = format!("jar-{}-{}", route.name(), twist.name());
 		jar_case(&mut r, &stream, twist.name(), twist == gen::Twist::None, &client, &server, route, i % 2 == 0, &tmp);
 	}
+	// 3b. multi-release entries: classes below META-INF/versions/<n>/ of every kind, next to the same classes outside, in all
+	// four placements (client only, server only, both equal, both differing), through zip archives and ParsedJars; some of the
+	// classes carry side marks of either side already (an input that was merged before)
+	for n in [9u32, 17, 21] {
+		for placement in 0..4 {
+			for (ri, route) in [Route { c: JarKind::Unnamed, s: JarKind::Unnamed }, Route { c: JarKind::Parsed, s: JarKind::Parsed }, Route { c: JarKind::File, s: JarKind::Named }, Route { c: JarKind::Unnamed, s: JarKind::Parsed }].into_iter().enumerate() {
+				if !ctx.thorough && (n as usize + placement + ri) % 2 == 1 { continue; }
+				let (client, server) = gen::versions_pair(n, placement, ri == 1 && placement % 2 == 0);
+				r.count(&format!("versions:{}", ["client only", "server only", "both equal", "both differing"][placement]));
+				jar_case(&mut r, &format!("versions-{}", route.name()), "versions", true, &client, &server, route, true, &tmp);
+			}
+		}
+	}
+	// 3c. two-step sequences: the result of one merge is an input of the next — merge(merge(c, s), t) and merge(t, merge(c, s)) —
+	// handed on as the ParsedJar it is or written (to_mem) and re-opened as a zip archive; t is the server or client jar again or
+	// a later build of one of them.  Every class, member and interface of the first result carries the marks of the first merge.
+	let n = if ctx.thorough { 1200 } else { 140 };
+	for i in 0..n {
+		let route = gen::gen_route(&mut rng);
+		let (client, server) = gen::jar_pair(&mut rng, gen::Twist::None, route);
+		two_step_case(&mut r, &mut rng, i, &client, &server, route, &tmp);
+	}
 	// 5. zip archives with large entries (every merged jar written and re-opened)
 	let n = if ctx.thorough { 60 } else { 10 };
 	for i in 0..n {
@@ -726,7 +837,7 @@ pub fn run(ctx: &Ctx) -> anyhow::Result<Report> {
 	let panics: u64 = r.dist.iter().filter(|(k, _)| k.starts_with("outcome:") && k.ends_with(":panic")).map(|(_, v)| *v).sum();
 	let errs: u64 = r.dist.iter().filter(|(k, _)| k.starts_with("outcome:") && k.ends_with(":err")).map(|(_, v)| *v).sum();
 	r.notes.push(format!("observed outside the hypotheses (not violations of C13): {panics} merges panicked (assert_eq!/panic! on differing version, access, deprecated/synthetic flags, inner-class records), {errs} returned Err (differing super class or class name, unreadable class bytes, entry kind mismatch); the model predicts each of these outcomes (Panic/Fail) and is compared on them"));
-	r.notes.push("observed, outside the property text (counted under observed:* in the distribution; the model follows the code here, but neither the oracle nor the comparison with the model demands it): Err vs panic for a merge that yields no jar; entry order of the merged jar (client's entries, then server-only ones); entry attributes (the client's); a resource differing between the sides is taken from the client with a warning on stderr; META-INF/*.DSA and *.EC are kept, only *.SF and *.RSA are dropped".to_owned());
+	r.notes.push("observed, outside the property text (counted under observed:* in the distribution; the model follows the code here, but neither the oracle nor the comparison with the model demands it): Err vs panic for a merge that yields no jar; entry order of the merged jar (client's entries, then server-only ones); entry attributes (the client's); a resource differing between the sides is taken from the client with a warning on stderr; META-INF/*.SF, *.RSA, *.DSA and *.EC are dropped (fix 39805d3; before it *.DSA and *.EC stayed in the merged jar)".to_owned());
 	r.notes.push("a merged class keeps the client's record components and the union of both sides' permitted subclasses (fix: merging two versions of a class keeps its record components and permitted subclasses); before that repair Records$Point merged with its own duke re-write lost its Record attribute".to_owned());
 	Ok(r)
 }
@@ -780,7 +891,7 @@ fn rule_sweep(r: &mut Report) {
 		// the property oracle: the harness' own reading of "signature files and bundled server libraries"
 		let own_kind = if n.ends_with('/') || n.ends_with('\\') { 0 } else if n.ends_with(".class") { 1 } else { 2 };
 		if sig != is_signature(n) || lib != is_server_library(n) || (sig && asv.entries.contains_key(n)) || kind != own_kind {
-			r.violation(format!("entry name {n:?}: dukebox::merge::merge {} it, the rules (signature files META-INF/*.SF|*.RSA; bundled libraries = server-only *.class in a package outside net/minecraft/) say {}; zip entry kind {} (expected {})",
+			r.violation(format!("entry name {n:?}: dukebox::merge::merge {} it, the rules (signature files META-INF/*.SF|*.RSA|*.DSA|*.EC; bundled libraries = server-only *.class in a package outside net/minecraft/) say {}; zip entry kind {} (expected {})",
 					if sig { "drops" } else if lib { "drops (server side only)" } else { "keeps" }, if is_signature(n) { "signature file" } else if is_server_library(n) { "bundled library" } else { "keep" }, ["dir", "class", "other", "unreadable"][kind as usize], ["dir", "class", "other"][own_kind as usize]),
 				format!("property C13\nclient jar (ParsedJar): one resource {n:?} with the bytes b\"x\"; server jar: empty -> merged jar {} the entry\nclient jar: empty; server jar: the same resource -> merged jar {} the entry\na zip archive with a stored entry of that name: read as {}\n",
 					if ac.entries.contains_key(n) { "has" } else { "does not have" }, if asv.entries.contains_key(n) { "has" } else { "does not have" }, ["Dir", "Class", "Other", "an error"][kind as usize]));
@@ -812,6 +923,47 @@ fn damaged_zip_probe(r: &mut Report) {
 	match guarded(AssertUnwindSafe(|| dukebox::merge::merge(UnnamedMemJar { data: z }, empty))) { Ok(Err(_)) => r.count("damaged zip:merge returns Err"), Ok(Ok(_)) => r.count("damaged zip:merge returns a jar"), Err(_) => r.count("damaged zip:merge panics") }
 }
 
+/// merge(merge(client, server), t) or merge(t, merge(client, server)): both steps judged by the oracle and compared with the model
+fn two_step_case(r: &mut Report, rng: &mut Rng, i: usize, client: &AJar, server: &AJar, route: Route, tmp: &Path) {
+	let (m1, j1) = match run_merge_keep(client, server, route, false, true, tmp) { Ok(x) => x, Err(e) => { r.count(&format!("skipped:{}", e.split(':').next().unwrap_or("?"))); return; } };
+	let step1 = describe(client, server, route);
+	oracle(r, &format!("step 1 of 2\n{step1}"), &format!("{route:?}"), &m1);
+	let Some(j1) = j1 else { r.count("two-step:first merge gave no jar"); return; };
+	let (tdesc, t) = gen::third_jar(rng, client, server);
+	let first_is_client = i % 2 == 0;
+	let as_zip = i % 4 >= 2;
+	let tkind = *rng.pick(&[JarKind::Unnamed, JarKind::Parsed, JarKind::File]);
+	let e2s = |e: anyhow::Error| format!("{e:#}");
+	let mut it = Interner::default();
+	let first: BuiltJar = if as_zip {
+		match guarded(AssertUnwindSafe(|| j1.to_mem())) { Ok(Ok(mem)) => BuiltJar::Unnamed(mem), _ => { r.count("two-step:first result could not be written"); return; } }
+	} else { BuiltJar::Parsed(j1) };
+	let pf = match prepare_built(&first, &mut it) { Ok(x) => x, Err(e) => { r.count(&format!("skipped:{}", e.split(':').next().unwrap_or("?"))); return; } };
+	let tj = match build(&t, tkind, tmp, "third").map_err(e2s) { Ok(x) => x, Err(e) => { r.count(&format!("skipped:{}", e.split(':').next().unwrap_or("?"))); return; } };
+	let ta = match with_jar!(&tj, j => read_attrs(j)) { Ok(x) => x, Err(_) => { r.count("skipped:attrs"); return; } };
+	let pt = match prepare(&t, tkind, &ta, &mut it) { Ok(x) => x, Err(e) => { r.count(&format!("skipped:{}", e.split(':').next().unwrap_or("?"))); return; } };
+	let inputs = format!("step 2 of 2: dukebox::merge::merge({}) where FIRST = the jar dukebox::merge::merge returned in step 1, handed on {} and THIRD = {tdesc} ({tkind:?})\nstep 1:\n{step1}third jar:\n{}\n",
+		if first_is_client { "FIRST, THIRD" } else { "THIRD, FIRST" }, if as_zip { "written by ParsedJar::to_mem and re-opened as an UnnamedMemJar" } else { "as the ParsedJar it is" },
+		t.iter().map(|e| format!("  {e:?}")).collect::<Vec<_>>().join("\n"));
+	let crumb_text = format!("property C13\n{REPLAY_NOTE}\ndukebox::merge::merge did not return (harness killed) on\n{inputs}");
+	let (m2, _) = if first_is_client { run_built(first, tj, pf, pt, &crumb_text, i % 3 == 0, false, tmp, &mut it) } else { run_built(tj, first, pt, pf, &crumb_text, i % 3 == 0, false, tmp, &mut it) };
+	let term = g_case(&m2);
+	let ok = matches!(m2.outcome, Outcome::Ok(_));
+	r.eval(&term, ok);
+	r.count(&format!("outcome:two-step:{}", match m2.outcome { Outcome::Ok(_) => "ok", Outcome::Fail => "err", Outcome::Panic => "panic" }));
+	r.count(&format!("two-step:first result as {} / {}; third = {tdesc}", if first_is_client { "client" } else { "server" }, if as_zip { "zip" } else { "ParsedJar" }));
+	// how many inputs of the second step carry a side mark already
+	let marked = m2.client.iter().chain(m2.server.iter()).filter(|e| matches!(&e.content, PContent::Class { parsed: Some(p), .. } if p.vis.iter().any(|a| matches!(a, PAnn::Env(_))) || p.fields.iter().chain(p.methods.iter()).any(|x| x.inv.iter().any(|a| matches!(a, PAnn::Env(_)))))).count();
+	r.count_n("two-step:input classes of the second merge that carry a side mark", marked as u64);
+	if !ok {
+		r.violation(format!("second merge of a two-step sequence did not return a jar: {:?}", m2.outcome), format!("property C13\n{REPLAY_NOTE}\n{inputs}"));
+	}
+	let stream = format!("twostep-{}-{}", if first_is_client { "first" } else { "third" }, if as_zip { "zip" } else { "parsed" });
+	oracle(r, &inputs, &format!("two-step, {}", stream), &m2);
+	stats(r, &m2);
+	r.case(&stream, term);
+}
+
 #[allow(clippy::too_many_arguments)]
 fn jar_case(r: &mut Report, stream: &str, label: &str, inside: bool, client: &AJar, server: &AJar, route: Route, reopen: bool, tmp: &Path) {
 	match run_merge(client, server, route, reopen, tmp) {
@@ -827,7 +979,7 @@ fn jar_case(r: &mut Report, stream: &str, label: &str, inside: bool, client: &AJ
 				r.violation(format!("merge of well-formed jars did not return a jar: {:?}", m.outcome),
 					format!("property C13\n{REPLAY_NOTE}\nroute {route:?}\nclient jar:\n{}\nserver jar:\n{}\n", client.iter().map(|e| format!("  {e:?}")).collect::<Vec<_>>().join("\n"), server.iter().map(|e| format!("  {e:?}")).collect::<Vec<_>>().join("\n")));
 			}
-			oracle(r, client, server, route, &m);
+			oracle(r, &describe(client, server, route), &format!("{route:?}"), &m);
 			stats(r, &m);
 			r.case(stream, term);
 		}
@@ -869,7 +1021,6 @@ fn stats(r: &mut Report, m: &Merged) {
 			if let (Some(PEntry { content: PContent::Other(dc), .. }), Some(PEntry { content: PContent::Other(ds), .. }), OContent::Other(d)) = (ic.copied(), is, &e.content) {
 				if dc != ds && e.name != MANIFEST_NAME { r.count(if d == dc { "observed:resource differing between the sides: the client's bytes" } else if d == ds { "observed:resource differing between the sides: the server's bytes" } else { "observed:resource differing between the sides: other bytes" }); }
 			}
-			if e.name.starts_with("META-INF/") && e.name.ends_with(".DSA") { r.count("observed:META-INF/*.DSA kept (only .SF and .RSA are dropped)"); }
 			if let (OContent::Parsed(mc), Some(c)) = (&e.content, by.get(e.name.as_str())) {
 				if let PContent::Class { parsed: Some(pc), .. } = &c.content {
 					if m.server.iter().any(|x| x.name == e.name) {
